@@ -510,4 +510,89 @@ example : (-42 : Int) = ((6 : Nat) : Int) * (-7) ∧ (-42 : Int).natAbs < 2 ^ (6
 representable in `i64` but is reported as failure (same spurious failure as `mulDivSigned`). -/
 example : checkedMulWithSigned 64 (2 ^ 62) 2 = none ∧ checkedMulWithSigned 64 (2 ^ 62) (-2) = none := by decide
 
+/-! ### exact success conditions added after the audit (design.d/AUDIT.md, C01) -/
+
+/-- `checked_signed_sub`: exact success/failure characterisation -/
+theorem checkedSignedSub_iff (W a b : Nat) (r : Int) :
+    checkedSignedSub W a b = some r ↔ r = (a : Int) - b ∧ r.natAbs < 2 ^ (W - 1) := by
+  unfold checkedSignedSub toOppositeSigned toSigned
+  by_cases h : a ≥ b
+  · simp only [h, if_true]
+    constructor
+    · intro hh
+      split at hh
+      · cases hh; constructor <;> omega
+      · cases hh
+    · rintro ⟨rfl, hlt⟩
+      have : a - b < 2 ^ (W - 1) := by omega
+      simp [this]; omega
+  · simp only [h, if_false]
+    constructor
+    · intro hh
+      split at hh
+      · simp only [Option.map_some, Option.some.injEq] at hh; subst hh; constructor <;> omega
+      · simp at hh
+    · rintro ⟨rfl, hlt⟩
+      have : b - a < 2 ^ (W - 1) := by omega
+      simp [this]; omega
+
+/-- `checked_mul_with_signed`: succeeds exactly when the magnitude of the product fits the positive range (so `−2^(W−1)` is a spurious failure) -/
+theorem checkedMulWithSigned_iff (W a : Nat) (s r : Int) (hW : 1 ≤ W) :
+    checkedMulWithSigned W a s = some r ↔ r = (a : Int) * s ∧ a * s.natAbs < 2 ^ (W - 1) := by
+  have hpow : (2 : Nat) ^ (W - 1) ≤ 2 ^ W := Nat.pow_le_pow_right (by decide) (by omega)
+  constructor
+  · intro h
+    have := checkedMulWithSigned_spec h
+    refine ⟨this.1, ?_⟩
+    have e : (a * s.natAbs : Nat) = ((a : Int) * s).natAbs := by simp [Int.natAbs_mul]
+    rw [e, ← this.1]; exact this.2
+  · rintro ⟨rfl, hlt⟩
+    unfold checkedMulWithSigned checkedMul toU toSigned
+    have h1 : a * s.natAbs < 2 ^ W := by omega
+    simp only [h1, if_true, hlt]
+    by_cases hs : s < 0
+    · simp only [hs, if_true, Option.some.injEq]
+      have : (s.natAbs : Int) = -s := by omega
+      push_cast; rw [this, Int.mul_neg, Int.neg_neg]
+    · have : (s.natAbs : Int) = s := by omega
+      simp only [hs, if_false, Option.some.injEq]
+      push_cast; rw [this]
+
+/-- exact success condition of `as_divisor_to_round_up_magnitude_div` for a dividend of the signed type -/
+theorem roundUpMagnitudeDiv_isSome_iff (W k : Nat) (d : Int) (hW : 1 ≤ W)
+    (hd : -(2 ^ (W - 1) : Int) ≤ d ∧ d < (2 ^ (W - 1) : Int)) :
+    (roundUpMagnitudeDiv W k d).isSome = true ↔
+      k ≠ 0 ∧ k < 2 ^ (W - 1) ∧ (d < 0 → -(2 ^ (W - 1) : Int) ≤ d - k) ∧ (0 ≤ d → d + k < (2 ^ (W - 1) : Int)) := by
+  unfold roundUpMagnitudeDiv toSigned toI
+  by_cases hk : k = 0
+  · simp [hk]
+  · simp only [hk, if_false, ne_eq, not_false_eq_true, true_and]
+    by_cases hkk : k < 2 ^ (W - 1)
+    · have hkI : (k : Int) < (2 ^ (W - 1) : Int) := by exact_mod_cast hkk
+      simp only [hkk, if_true, true_and]
+      by_cases hneg : d < 0
+      · simp only [hneg, if_true, true_implies]
+        have hnn : ¬ (0 ≤ d) := by omega
+        simp only [hnn, false_implies, and_true]
+        by_cases hc : -(2 ^ (W - 1) : Int) ≤ d - k
+        · have c1 : -(2 ^ (W - 1) : Int) ≤ d - k ∧ d - (k : Int) < (2 ^ (W - 1) : Int) := ⟨hc, by omega⟩
+          have c2 : -(2 ^ (W - 1) : Int) ≤ d - k + 1 ∧ d - (k : Int) + 1 < (2 ^ (W - 1) : Int) := ⟨by omega, by omega⟩
+          simp [c1, c2, hc]
+        · have c1 : ¬ (-(2 ^ (W - 1) : Int) ≤ d - k ∧ d - (k : Int) < (2 ^ (W - 1) : Int)) := fun h => hc h.1
+          simp [c1, hc]
+      · simp only [hneg, if_false, false_implies, true_and]
+        have hnn : 0 ≤ d := by omega
+        simp only [hnn, true_implies]
+        by_cases hc : d + k < (2 ^ (W - 1) : Int)
+        · have c1 : -(2 ^ (W - 1) : Int) ≤ d + k ∧ d + (k : Int) < (2 ^ (W - 1) : Int) := ⟨by omega, hc⟩
+          have c2 : -(2 ^ (W - 1) : Int) ≤ d + k - 1 ∧ d + (k : Int) - 1 < (2 ^ (W - 1) : Int) := ⟨by omega, by omega⟩
+          simp [c1, c2, hc]
+        · have c1 : ¬ (-(2 ^ (W - 1) : Int) ≤ d + k ∧ d + (k : Int) < (2 ^ (W - 1) : Int)) := fun h => hc h.2
+          simp [c1, hc]
+    · simp [hkk]
+
+example : checkedSignedSub 64 5 9 = some (-4) ∧ checkedSignedSub 64 0 (2 ^ 63) = none := by decide
+example : checkedMulWithSigned 64 (2 ^ 61) (-3) = some (-(2 ^ 61 * 3)) ∧ checkedMulWithSigned 64 (2 ^ 62) (-2) = none := by decide
+example : (roundUpMagnitudeDiv 64 7 (-15)).isSome = true ∧ (roundUpMagnitudeDiv 64 7 (2 ^ 63 - 3)).isSome = false := by decide
+
 end Gmx.C01
